@@ -4,7 +4,97 @@ from framework import REPO, ROOT
 from props import C09 as e3
 
 TIE = ["Nsq.Tie.ProtoHttp", "Nsq.Tie.ProtoHttpFull"]
-PROPS = ["Nsq.Props.C10", "Nsq.Props.C10Full"]
+PROPS = ["Nsq.Props.C10", "Nsq.Props.C10Full", "Nsq.Props.C10Char"]
+HARNESS = e3.HARNESS + ["e3/audit10_test.go"]
+
+
+def audit_leg(ctx, binp, corr_broken):
+    """Audit round 7 (B16, B20): `httpb` ops — status, broker and the number of body bytes each handler
+    consumes, replayed through Nsq.Model.HttpFull.serve / Nsq.Model.HttpBody.bodyRead; model-free oracle "no
+    handler consumes more than max(max-msg-size, max-body-size)+1 bytes"; interrupted requests on the listener.
+    The model prints the current shape (`R`) and the shape before fix F33 (`RO`); the old shape is accepted
+    only while the replay corpus/C10/known/admin_body_unbounded.opsb still reproduces the finding."""
+    corpus = os.path.join(ctx.work, "corpusb")
+    os.makedirs(corpus, exist_ok=True)
+    n = 0
+    for sub in ("", "fixed", "known"):
+        d = os.path.join(ROOT, "corpus", "C10", sub)
+        if os.path.isdir(d):
+            for fn in sorted(os.listdir(d)):
+                if fn.endswith(".opsb"):
+                    n += 1
+                    with open(os.path.join(corpus, "%02d_%s_%s" % (n, sub or "min", fn)), "w") as f:
+                        f.write(open(os.path.join(d, fn)).read())
+    N = ctx.budget(500, 5000)
+    if ctx.replay_in:
+        N = 0
+        if "httpb " not in open(ctx.replay_in).read():
+            return
+        for fn in os.listdir(corpus):
+            os.remove(os.path.join(corpus, fn))
+        with open(os.path.join(corpus, "00_replay.opsb"), "w") as f:
+            f.write(open(ctx.replay_in).read())
+    rc, out = ctx.run_cmd([binp, "-test.run", "^TestVerifE3HTTPAudit$", "-test.count=1", "-test.timeout=3000s"],
+                          timeout=3200, env={"VERIF_SEED": ctx.seed, "VERIF_N": N, "VERIF_OUT": ctx.work,
+                                             "VERIF_REPO": REPO, "VERIF_CORPUS": corpus})
+    fails, okl = e3.harness_lines(ctx, out, "httpb")
+    unfixed = any(" key=admin-body-unbounded " in l for l in fails)
+    for l in fails:
+        e3.report_oracle_fail(ctx, l)
+    if rc != 0 or (not okl and not fails):
+        ctx.log("httpb harness failed (rc=%s):\n%s" % (rc, out[-3000:]))
+        corr_broken.append("httpb harness exit %s" % rc)
+        if "panic:" in out or "fatal error:" in out:
+            ctx.violation("panic", "the nsqd process died while serving generated HTTP requests (body-read leg)",
+                          out[-4000:])
+    opsf = os.path.join(ctx.work, "httpb.ops")
+    if not os.path.exists(opsf):
+        return
+    ops = open(opsf).read().splitlines()
+    impl = open(os.path.join(ctx.work, "httpb.impl")).read().splitlines()
+    rc, mout = ctx.driver("e3", stdin_path=opsf, timeout=3000)
+    model = mout.splitlines()
+    ndiff = 0
+    old_shape = 0
+    norm_impl, norm_model = [], []
+    for i, o in enumerate(ops):
+        a = impl[i] if i < len(impl) else "<missing>"
+        b = model[i] if i < len(model) else "<missing>"
+        if o.startswith("httpb "):
+            ctx.count_case(o, nontrivial=True)
+            if len(o) < 300 and i % 53 == 0:
+                ctx.add_sample({"op": o, "impl": a[:300], "model": b[:300]})
+            fa, fb = a.split(), b.split()
+            if len(fa) == 3 and len(fb) == 4 and fa[1].startswith("R=") and fb[1].startswith("R") and fb[2].startswith("RO"):
+                got = int(fa[1][2:])
+                cur, old = fb[1][1:], fb[2][2:]
+
+                def fits(tok):
+                    if tok == "?":
+                        return True
+                    if tok.startswith("<="):
+                        return got <= int(tok[2:])
+                    return tok.startswith("=") and got == int(tok[1:])
+                if fits(cur):
+                    a = "%s R%s %s" % (fa[0], cur, fa[2])
+                elif unfixed and fits(old):
+                    old_shape += 1
+                    a = "%s R%s %s" % (fa[0], cur, fa[2])
+                b = "%s %s %s" % (fb[0], fb[1], fb[3])
+        norm_impl.append(a)
+        norm_model.append(b)
+        if a != b:
+            ndiff += 1
+            if ndiff <= 5:
+                ctx.log("body-read model/impl disagree on `%s`:\n   impl  %s\n   model %s" % (o[:300], a[:400], b[:400]))
+                corr_broken.append("correspondence httpb: %s" % o[:160])
+                if ndiff == 1:
+                    ctx.corr["first_disagreement_httpb"] = {"op": o[:2000], "impl": a[:2000], "model": b[:2000]}
+    ctx.corr["httpb_old_shape_lines"] = old_shape
+    ctx.diff_lines(norm_impl, norm_model, "httpb")
+    if ctx.replay_in:
+        for o, a, b in zip(ops, impl, model):
+            print("op    %s\n impl  %s\n model %s" % (o[:400], a[:600], b[:600]))
 
 
 def full_leg(ctx, binp, corr_broken):
@@ -114,7 +204,7 @@ def run(ctx):
         ctx.leanchecker(PROPS)
     corr_broken = []
     ctx.build_driver("e3")
-    binp = ctx.go_test_binary("nsqd", e3.HARNESS, "e3http")
+    binp = ctx.go_test_binary("nsqd", HARNESS, "e3http")
     if not binp:
         ctx.broken_ties.append("harness harness/e3 does not compile against the current tree")
         corr_broken.append("harness build")
@@ -161,6 +251,7 @@ def run(ctx):
                     print("op    %s\n impl  %s\n model %s" % (o[:400], a[:600], b[:600]))
     if binp:
         full_leg(ctx, binp, corr_broken)
+        audit_leg(ctx, binp, corr_broken)
     if (ctx.broken_ties or corr_broken) and not ctx.violations:
         ctx.broken_without_input(ctx.broken_ties + corr_broken,
                                  "search: %d generated operations, the 500/twin-topic/size oracles found no request on "
